@@ -22,6 +22,12 @@ Example dense_ok_nonvacuous :
   form_ok 2 (FAdd (FMul (FSym PX 0) (FPow (FSym PY 1) 3)) (FNum (2, 1)%Z)) = true.
 Proof. reflexivity. Qed.
 
+Example dense_ok_pow_of_anticommuting_product :   (* (X0*Z0)**2 = -1, (1j*X0*Y0)**3 = -Z0, ((X0+Z0)*Y0)**2 = -2 *)
+  dense 1 (FPow (FMul (FSym PX 0) (FSym PZ 0)) 2) = Some [[zim1; zi0]; [zi0; zim1]] /\
+  dense 1 (FPow (FMul (FNum zii) (FMul (FSym PX 0) (FSym PY 0))) 3) = Some [[zim1; zi0]; [zi0; zi1]] /\
+  dense 1 (FPow (FMul (FAdd (FSym PX 0) (FSym PZ 0)) (FSym PY 0)) 2) = Some [[(-2, 0)%Z; zi0]; [zi0; (-2, 0)%Z]].
+Proof. repeat split; vm_compute; reflexivity. Qed.
+
 (* ---- terms route: for ANY monomial list that denotes the form (sympy's expand is an oracle held
    to this contract, checked per case by the harness), the terms built by SymbolicTerm.__init__
    (power rule, per-qubit factor lists, constant) satisfy
